@@ -5,6 +5,8 @@
 
 pub(crate) mod future;
 pub(crate) mod temporal;
+#[cfg(lancedb_lance_verif)]
+pub use temporal::verif_set_clock;
 #[cfg(test)]
 pub(crate) mod test;
 #[cfg(feature = "tensorflow")]
